@@ -64,16 +64,16 @@ Theorem C19_extend_hom_partial : forall A B sA,
 Proof. exact extend_hom_ops. Qed.
 Print Assumptions C19_extend_hom_partial.
 
-(* Each reported change of a membership kind has a witness in the two schemas: the named type /
-   directive / field / input field / enum value / union member / interface is present in one schema
-   and absent from the same container of the other (or the kinds of the two types differ).
-   Partial: [witness] constrains TYPE_REMOVED/ADDED, TYPE_CHANGED_KIND, DIRECTIVE_REMOVED/ADDED,
-   FIELD_REMOVED/ADDED, VALUE_REMOVED/ADDED, union member and interface removed/added, input field
-   added; the remaining kinds (type/default/description/argument changes) are tied by the mutants. *)
-Theorem C19_diff_sound_partial : forall leb a b c,
-  NoDup (map t_name (s_types a)) -> In c (diff leb a b) -> witness c a b = true.
+(* Each reported change - of every kind - has a witness in the two schemas: [witness] is a decidable
+   predicate that, per change kind, states the actual difference at the named place: the type /
+   directive / field / input field / enum value / union member / interface / argument / location is
+   present in one schema and absent from the same container of the other; the kinds of the two
+   types differ; the two type references differ; the default value was removed / added / differs
+   (as sorted literals); the repeatable flags differ; the two descriptions differ.  Kinds outside
+   the list of the implementation have no witness (the predicate is false for them). *)
+Theorem C19_diff_sound : forall leb a b c, wf a -> In c (diff leb a b) -> witness leb c a b = true.
 Proof. exact diff_sound. Qed.
-Print Assumptions C19_diff_sound_partial.
+Print Assumptions C19_diff_sound.
 
 (* non-vacuity: a well-formed two-type schema whose sort differs from it; an extension *)
 Definition ex_Q : typedef :=
@@ -101,11 +101,12 @@ Qed.
 
 (* the witness predicate is not trivially true, and a real removal is reported with its witness *)
 Example C19_example_witness :
-  witness (mkChange TYPE_REMOVED [nQuery]) ex_s ex_s = false
-  /\ witness (mkChange FIELD_REMOVED [nQuery; [98]]) ex_s ex_s = false
+  witness natural_leb (mkChange TYPE_REMOVED [nQuery]) ex_s ex_s = false
+  /\ witness natural_leb (mkChange FIELD_REMOVED [nQuery; [98]]) ex_s ex_s = false
+  /\ witness natural_leb (mkChange DESCRIPTION_CHANGED [nQuery]) ex_s ex_s = false
   /\ let b := mkSchema None (Some nQuery) None None [ex_Q] [] in
      map c_kind (diff natural_leb ex_s b) = [TYPE_REMOVED]
-     /\ witness (mkChange TYPE_REMOVED [[65]]) ex_s b = true.
+     /\ witness natural_leb (mkChange TYPE_REMOVED [[65]]) ex_s b = true.
 Proof. repeat split; reflexivity. Qed.
 
 Example C19_example_extend :
